@@ -22,13 +22,23 @@
    that runs while a batch is still open sees none of that batch: it is a read BEFORE those W.
    Validation reads no table, so only its order (= the order of the writes) matters.
 
-   Identifiers are scenario indices.  A row keeps its rowid for its whole life (no deletion in
-   these scenarios), so "UPDATE .. WHERE rowid = snapshot's rowid" is "replace the row with that id". *)
+   Creation (a mutation without id: Node::write INSERTs, the new rowid is max(rowid)+1) and
+   deletion of a whole row (DeletionQuery::build on the reader: is the row there?; validate_deletion;
+   DeletionQuery::delete: DELETE .. WHERE id, Edge::delete_src) go through the same three executors.
+   An update is written with UPDATE .. WHERE rowid = the SNAPSHOT's rowid: rows carry their rowid.
+   Rights: validate_entity_mutation / validate_deletion for rows authored by the caller: the
+   own-rows right in the room entered and in the room left, at the date of the mutation; [rights]
+   lists the rooms the authorisation state knows with the date from which the caller's right is
+   revoked.  A refused mutation is answered with an error and dropped.
+
+   Identifiers are scenario indices; rows are never the TARGET of a reference in these scenarios
+   (Edge::delete_dest of a deleted row is not modelled). *)
 From DV Require Export Base.
 
-Record row := { r_id : N; r_room : option N; r_mdate : Z; r_fields : list (N * Z) }.
+Record row := { r_id : N; r_rowid : N; r_room : option N; r_mdate : Z; r_fields : list (N * Z) }.
 Record edge := { e_src : N; e_label : N; e_dest : N; e_cdate : Z }.
-Record db := { rows : list row; edges : list edge }.
+(* db_floor: the largest rowid used by rows of other entities in the same table *)
+Record db := { rows : list row; edges : list edge; db_floor : N }.
 
 (* reference operations of one mutation on its row:
    RAdd  l ds : array field   l:[{id:d1},{id:d2}..]
@@ -36,7 +46,10 @@ Record db := { rows : list row; edges : list edge }.
    RClear l   : l:null *)
 Inductive refop := RAdd (l : N) (ds : list N) | RSet (l : N) (d : N) | RClear (l : N).
 
-Record mutation := { m_row : N; m_date : Z; m_room : option N;
+(* KUpdate: mutate { E { id:.. ..} }   KCreate: mutate { E { .. } } (m_row = the id the reader
+   draws; m_assign includes the defaults the parser fills in)   KDelete: delete { E { $id } } *)
+Inductive mkind := KUpdate | KCreate | KDelete.
+Record mutation := { m_kind : mkind; m_row : N; m_date : Z; m_room : option N;
                      m_assign : list (N * Z); m_refs : list refop }.
 
 (* ---- json object of a row: serde_json::Map insert ---- *)
@@ -72,9 +85,14 @@ Definition get_edges (l : N) (es : list edge) : list edge :=       (* Edge::get_
 
 Definition is_nil {A} (l : list A) : bool := match l with [] => true | _ => false end.
 
-(* a mutation after its read phase: the row to write back whole (None: "nothing changed"),
-   the edges to delete and to insert *)
-Record pending := { p_row : N; p_node : option row; p_del : list edge; p_ins : list edge }.
+(* a mutation after its read phase.
+   PUpd: the row to write back whole (None: "nothing changed"; it carries the snapshot's rowid),
+         the room of the snapshot, the edges to delete and to insert
+   PNew: the row to insert (its rowid is given by the writer) and its edges
+   PDel: whether the row was there, and its room *)
+Inductive pkind := PUpd | PNew | PDel (found : bool).
+Record pending := { p_kind : pkind; p_row : N; p_date : Z; p_oldroom : option N;
+                    p_node : option row; p_del : list edge; p_ins : list edge }.
 
 Definition mk_edge (x l dst : N) (date : Z) : edge :=
   {| e_src := x; e_label := l; e_dest := dst; e_cdate := date |}.
@@ -92,12 +110,12 @@ Definition ref_read (x : N) (date : Z) (es : list edge) (op : refop) : list edge
       let old := get_edges l es in (old, [], negb (is_nil old))
   end.
 
-Definition read_view (m : mutation) (old : row) (es : list edge) : pending :=
+Definition read_update (m : mutation) (old : row) (es : list edge) : pending :=
   let rs := map (ref_read (m_row m) (m_date m) es) (m_refs m) in
   let upd := negb (is_nil (m_assign m)) || existsb (fun t => snd t) rs in
-  {| p_row := m_row m;
+  {| p_kind := PUpd; p_row := m_row m; p_date := m_date m; p_oldroom := r_room old;
      p_node := if upd then
-                 Some {| r_id := r_id old;
+                 Some {| r_id := r_id old; r_rowid := r_rowid old;
                          r_room := match m_room m with Some r => Some r | None => r_room old end;
                          r_mdate := m_date m;
                          r_fields := merge_fields (r_fields old) (m_assign m) |}
@@ -105,21 +123,79 @@ Definition read_view (m : mutation) (old : row) (es : list edge) : pending :=
      p_del := flat_map (fun t => fst (fst t)) rs;
      p_ins := flat_map (fun t => snd (fst t)) rs |}.
 
+Definition read_create (m : mutation) (es : list edge) : pending :=
+  let rs := map (ref_read (m_row m) (m_date m) es) (m_refs m) in
+  {| p_kind := PNew; p_row := m_row m; p_date := m_date m; p_oldroom := None;
+     p_node := Some {| r_id := m_row m; r_rowid := 0%N; r_room := m_room m; r_mdate := m_date m;
+                       r_fields := merge_fields [] (m_assign m) |};
+     p_del := flat_map (fun t => fst (fst t)) rs;
+     p_ins := flat_map (fun t => snd (fst t)) rs |}.
+
 (* Read phase: None = Error::UnknownEntity (the mutation is answered with an error) *)
 Definition read (d : db) (m : mutation) : option pending :=
-  match find_row (m_row m) d with
-  | None => None
-  | Some old => Some (read_view m old (edges_of (m_row m) d))
+  match m_kind m with
+  | KUpdate =>
+      match find_row (m_row m) d with
+      | None => None
+      | Some old => Some (read_update m old (edges_of (m_row m) d))
+      end
+  | KCreate => Some (read_create m (edges_of (m_row m) d))
+  | KDelete =>
+      Some {| p_kind := PDel (match find_row (m_row m) d with Some _ => true | None => false end);
+              p_row := m_row m; p_date := m_date m;
+              p_oldroom := match find_row (m_row m) d with Some old => r_room old | None => None end;
+              p_node := None; p_del := []; p_ins := [] |}
   end.
 
+(* Validation phase: rooms the authorisation state knows, each with the date from which the
+   caller's right is revoked *)
+Definition allowed (rights : list (N * Z)) (r : N) (date : Z) : bool :=
+  existsb (fun p => N.eqb (fst p) r && (date <? snd p)) rights.
+Definition validate (rights : list (N * Z)) (p : pending) : bool :=
+  match p_kind p with
+  | PDel _ => match p_oldroom p with Some r => allowed rights r (p_date p) | None => true end
+  | _ =>
+      match p_node p with
+      | None => true                                    (* a pure reference: nothing is checked *)
+      | Some n =>
+          match r_room n with
+          | None => true
+          | Some r =>
+              allowed rights r (p_date p) &&
+              match p_oldroom p with
+              | Some ro => if N.eqb ro r then true else allowed rights ro (p_date p)
+              | None => true
+              end
+          end
+      end
+  end.
+
+Definition next_rowid (d : db) : N := N.succ (fold_right N.max (db_floor d) (map r_rowid (rows d))).
+
 (* Write phase *)
+Definition write_edges (p : pending) (es : list edge) : list edge :=
+  fold_left (fun es e => insert_edge e es) (p_ins p)
+    (fold_left (fun es e => delete_edge e es) (p_del p) es).
 Definition write (p : pending) (d : db) : db :=
-  {| rows := match p_node p with
-             | Some n => map (fun r => if N.eqb (r_id r) (r_id n) then n else r) (rows d)
-             | None => rows d
-             end;
-     edges := fold_left (fun es e => insert_edge e es) (p_ins p)
-                (fold_left (fun es e => delete_edge e es) (p_del p) (edges d)) |}.
+  match p_kind p with
+  | PUpd =>
+      {| rows := match p_node p with
+                 | Some n => map (fun r => if N.eqb (r_rowid r) (r_rowid n) then n else r) (rows d)
+                 | None => rows d
+                 end;
+         edges := write_edges p (edges d); db_floor := db_floor d |}
+  | PNew =>
+      {| rows := match p_node p with
+                 | Some n => rows d ++ [{| r_id := r_id n; r_rowid := next_rowid d; r_room := r_room n;
+                                           r_mdate := r_mdate n; r_fields := r_fields n |}]
+                 | None => rows d
+                 end;
+         edges := write_edges p (edges d); db_floor := db_floor d |}
+  | PDel true =>
+      {| rows := filter (fun r => negb (N.eqb (r_id r) (p_row p))) (rows d);
+         edges := filter (fun e => negb (N.eqb (e_src e) (p_row p))) (edges d); db_floor := db_floor d |}
+  | PDel false => d
+  end.
 
 (* one mutation alone: read and write with nothing in between *)
 Definition apply (ms : list mutation) (d : db) (i : nat) : db :=
@@ -143,15 +219,18 @@ Record st := { s_db : db;
                s_pend : list (nat * pending);   (* read, not yet written *)
                s_fifo : list nat;               (* validated, in the order the actor forwards them *)
                s_acked : list nat;              (* written and acknowledged, in write order *)
-               s_failed : list nat }.           (* answered with an error at read time *)
-Definition init (d : db) : st := {| s_db := d; s_pend := []; s_fifo := []; s_acked := []; s_failed := [] |}.
+               s_failed : list nat;             (* answered with an error at read time *)
+               s_refused : list nat }.          (* answered with an error by the validation *)
+Definition init (d : db) : st :=
+  {| s_db := d; s_pend := []; s_fifo := []; s_acked := []; s_failed := []; s_refused := [] |}.
 
 Definition started (i : nat) (s : st) : bool :=
-  memn i (map fst (s_pend s)) || memn i (s_acked s) || memn i (s_failed s).
+  memn i (map fst (s_pend s)) || memn i (s_acked s) || memn i (s_failed s) || memn i (s_refused s).
+Definition dropped (i : nat) (s : st) : bool := memn i (s_failed s) || memn i (s_refused s).
 
 (* None = not a schedule the pipeline can produce (phase order of a mutation, or the FIFO
    coupling validation order = write order, is not respected) *)
-Definition step (ms : list mutation) (s : st) (e : ev) : option st :=
+Definition step (rights : list (N * Z)) (ms : list mutation) (s : st) (e : ev) : option st :=
   match e with
   | R i =>
       if started i s then None else
@@ -160,25 +239,33 @@ Definition step (ms : list mutation) (s : st) (e : ev) : option st :=
       | Some m =>
           match read (s_db s) m with
           | Some p => Some {| s_db := s_db s; s_pend := (i, p) :: s_pend s; s_fifo := s_fifo s;
-                              s_acked := s_acked s; s_failed := s_failed s |}
+                              s_acked := s_acked s; s_failed := s_failed s; s_refused := s_refused s |}
           | None => Some {| s_db := s_db s; s_pend := s_pend s; s_fifo := s_fifo s;
-                            s_acked := s_acked s; s_failed := s_failed s ++ [i] |}
+                            s_acked := s_acked s; s_failed := s_failed s ++ [i]; s_refused := s_refused s |}
           end
       end
   | V i =>
-      if memn i (s_failed s) then Some s else
-      if memn i (map fst (s_pend s)) && negb (memn i (s_fifo s)) then
-        Some {| s_db := s_db s; s_pend := s_pend s; s_fifo := s_fifo s ++ [i];
-                s_acked := s_acked s; s_failed := s_failed s |}
-      else None
+      if dropped i s then Some s else
+      if memn i (s_fifo s) then None else
+      match lookup i (s_pend s) with
+      | None => None
+      | Some p =>
+          if validate rights p then
+            Some {| s_db := s_db s; s_pend := s_pend s; s_fifo := s_fifo s ++ [i];
+                    s_acked := s_acked s; s_failed := s_failed s; s_refused := s_refused s |}
+          else
+            Some {| s_db := s_db s; s_pend := remove_key i (s_pend s); s_fifo := s_fifo s;
+                    s_acked := s_acked s; s_failed := s_failed s; s_refused := s_refused s ++ [i] |}
+      end
   | W i =>
-      if memn i (s_failed s) then Some s else
+      if dropped i s then Some s else
       match s_fifo s with
       | j :: rest =>
           if Nat.eqb i j then
             match lookup i (s_pend s) with
             | Some p => Some {| s_db := write p (s_db s); s_pend := remove_key i (s_pend s);
-                                s_fifo := rest; s_acked := s_acked s ++ [i]; s_failed := s_failed s |}
+                                s_fifo := rest; s_acked := s_acked s ++ [i]; s_failed := s_failed s;
+                                s_refused := s_refused s |}
             | None => None
             end
           else None
@@ -186,13 +273,14 @@ Definition step (ms : list mutation) (s : st) (e : ev) : option st :=
       end
   end.
 
-Fixpoint run (ms : list mutation) (s : st) (sigma : list ev) : option st :=
+Fixpoint run (rights : list (N * Z)) (ms : list mutation) (s : st) (sigma : list ev) : option st :=
   match sigma with
   | [] => Some s
-  | e :: t => match step ms s e with Some s' => run ms s' t | None => None end
+  | e :: t => match step rights ms s e with Some s' => run rights ms s' t | None => None end
   end.
 
-Definition run_sched (d : db) (ms : list mutation) (sigma : list ev) : option st := run ms (init d) sigma.
+Definition run_sched (rights : list (N * Z)) (d : db) (ms : list mutation) (sigma : list ev) : option st :=
+  run rights ms (init d) sigma.
 
 (* "no Read of a mutation on row x falls between the Read and the Write of another mutation on x":
    [open] = mutations whose Read has happened and whose Write has not *)
